@@ -16,8 +16,11 @@ fn cj(t: &[[f32; 2]; 3]) -> Json {
 
 /// Drift model of known finding F9 (f32 accumulation of the stepped edges):
 /// a mis-covered centre closer to an edge than this is attributed to drift.
+/// Worst case of one half-ulp rounding per scanline step, all in the same
+/// direction (a constant increment added to a slowly changing x rounds the
+/// same way for many steps): rows · ½ulp(x) ≤ extent · extent · 2^-24.
 fn drift_allowance(extent: f64) -> f64 {
-    4e-8 * extent * extent
+    6e-8 * extent * extent
 }
 
 pub struct Coverage {
